@@ -97,7 +97,7 @@ class CT:
 
 
 class Ctl:
-    def __init__(self, targets=(), preempt=None, max_steps=20000, opcode=False, first=None, default="stay"):
+    def __init__(self, targets=(), preempt=None, max_steps=20000, opcode=False, first=None, default="stay", early=None):
         self.targets = tuple(targets)
         self._tcache = {}
         self.preempt = dict(preempt or {})
@@ -117,6 +117,9 @@ class Ctl:
         self.status = None
         self.main_sem = threading.Semaphore(0)
         self.used_preempts = 0
+        # clock skew between a condition's timeout and the controlled (scheduler) clock: the first `early[0]` timed waits
+        # time out `early[1]` us before their deadline on the controlled clock
+        self.early = list(early) if early else [0, 0]
 
     # ------------------------------------------------------------------ bookkeeping
     def _is_target(self, fn):
@@ -443,6 +446,9 @@ class ICond:
         ctl.log(me, "wait", self.name, None if timeout is None else int(round(timeout * 1e6)))
         me.waitrec = rec
         me.wake_at = None if timeout is None else ctl.clock + max(0, int(round(timeout * 1e6)))
+        if timeout is not None and ctl.early[0] > 0:
+            ctl.early[0] -= 1
+            me.wake_at = max(ctl.clock, me.wake_at - ctl.early[1])
         me.blocked = ("cond", self, lambda: not rec["notified"] and not rec["timedout"])
         try:
             ctl._switch(me)
@@ -478,6 +484,7 @@ class IEvent:
         self.flag = False
 
     def is_set(self):
+        self.ctl.log(None, "ev_is_set", self.name, self.flag)
         return self.flag
 
     def set(self):
@@ -494,6 +501,7 @@ class IEvent:
             return self.flag
         ctl.sched_point(me)
         if self.flag:
+            ctl.log(me, "ev_wait_ret", self.name, True)
             return True
         rec = {"notified": False, "timedout": False}
         me.waitrec = rec
@@ -504,6 +512,7 @@ class IEvent:
         finally:
             me.blocked = None
             me.wake_at = None
+        ctl.log(me, "ev_wait_ret", self.name, self.flag)
         return self.flag
 
 
